@@ -79,6 +79,9 @@ def main():
             nloc = 1
             victims = {0}
             spec = dict(instant="mid_task_slow", how=fault["how"], parent=parent, after=0.4, kill_siblings=fault["victims"] > 1)
+        elif fault["call"] == k and fault["instant"] == "death_while_caller_pulls_input":
+            victims = {0}
+            spec = dict(instant="mid_task", how=fault["how"], parent=parent)
         elif fault["call"] == k and fault["instant"] not in ("idle_between_calls", "next_call_startup"):
             victims = set(fault["victim_tasks"])
             spec = dict(instant=fault["instant"], how=fault["how"], parent=parent)
@@ -114,6 +117,25 @@ def main():
                      for i in range(N)]
         else:
             tasks = [delayed(c10_tasks.task)(i, tag, spec if i in victims else None, cfg.get("dur", 0.02), pad) for i in range(nloc)]
+        if fault["call"] == k and fault["instant"] == "death_while_caller_pulls_input":
+            # the input is an iterable that keeps the CALLER's thread inside its initial dispatch loop (taking an item) from
+            # the moment every worker has a task until the executor has noticed the victim's death, and a little longer
+            full = tasks
+
+            def slow_input():
+                from joblib.externals.loky import reusable_executor as _re
+                for i, t in enumerate(full):
+                    if i == J:
+                        end = time.monotonic() + 15
+                        while time.monotonic() < end:
+                            ex = _re._executor
+                            if ex is not None and ex._flags.broken:
+                                break
+                            time.sleep(0.01)
+                        note(ev="input_resumes", broken=bool(_re._executor is not None and _re._executor._flags.broken))
+                        time.sleep(0.5)
+                    yield t
+            tasks = slow_input()
         rec = dict(call=k)
         note(ev="call_start", call=k)
         t0 = time.monotonic()
